@@ -1,0 +1,49 @@
+//go:build verif
+
+package payload
+
+// Contracts for /verif (contract-based deductive verification of this package).
+// Comment-only file: only the lines starting with "//@" are read, by /verif/bin/govc.
+
+//@ func (*Bin).setTime
+//@   modifies entries(bin.times), clock
+//@ func (*Bin).setStarted
+//@   modifies entries(bin.times), clock
+//@ func (*Bin).setCompleted
+//@   modifies entries(bin.times), clock
+
+// ---------------------------------------------------------------- packing (C11)
+
+//@ func NewBin
+//@   ensures fresh-bin: typeis(result, *Bin) && fresh(as(result, *Bin)) && as(result, *Bin).capacity == size && as(result, *Bin).bytes == 0 && len(as(result, *Bin).parts) == 0
+//@   ensures fluff-is-a-tenth: size >= 0 ==> 0 <= as(result, *Bin).fluff && as(result, *Bin).fluff <= size
+//@   modifies clock
+
+//@ func (*Bin).IsFull
+//@   ensures definition: result == (bin.capacity - bin.bytes < 0 || bin.capacity - bin.bytes < bin.fluff)
+//@   modifies nothing
+
+//@ func (*Bin).GetSize
+//@   ensures result == bin.bytes
+//@   modifies nothing
+
+// A3: integers below 2^53 convert to float64 exactly (the float detour of Add is the identity)
+//@ func (*Bin).Add
+//@   requires bin != nil && bin.fluff >= 0 && 0 <= bin.bytes && bin.bytes <= bin.capacity + bin.fluff
+//@   before call sts.Binnable.AddAlloc assert allocates-what-was-added: arg1 == bin.bytes - old(bin.bytes) && arg1 > 0 && arg0 == chunk
+//@   on return assert part-is-cursor-step: added ==> len(bin.parts) == old(len(bin.parts)) + 1 && bin.parts[len(bin.parts)-1].beg == lastret(sts.Binnable.GetNextAlloc, 0) && bin.parts[len(bin.parts)-1].beg < bin.parts[len(bin.parts)-1].end && bin.parts[len(bin.parts)-1].end <= lastret(sts.Binnable.GetNextAlloc, 1) && bin.parts[len(bin.parts)-1].end - bin.parts[len(bin.parts)-1].beg <= old(bin.capacity + bin.fluff - bin.bytes) && bin.bytes == old(bin.bytes) + bin.parts[len(bin.parts)-1].end - bin.parts[len(bin.parts)-1].beg && bin.parts[len(bin.parts)-1].Binnable == chunk && called(sts.Binnable.AddAlloc)
+//@   on return assert fills-or-finishes: added ==> bin.parts[len(bin.parts)-1].end == lastret(sts.Binnable.GetNextAlloc, 1) || bin.bytes == bin.capacity + bin.fluff
+//@   on return assert nothing-if-not-added: !added ==> len(bin.parts) == old(len(bin.parts)) && bin.bytes == old(bin.bytes) && !called(sts.Binnable.AddAlloc)
+//@   on return assert within-allowance: 0 <= bin.bytes && bin.bytes <= bin.capacity + bin.fluff
+//@   on return assert earlier-parts-kept: forall(k, 0, old(len(bin.parts)), bin.parts[k] == old(bin.parts[k]))
+
+//@ func (*Bin).Split
+//@   requires bin != nil
+//@   ensures  not-split: n < 1 || n >= old(len(bin.parts)) ==> result == nil && len(bin.parts) == old(len(bin.parts)) && bin.bytes == old(bin.bytes)
+//@   on return assert head-tail: 1 <= n && n < old(len(bin.parts)) ==> result != nil && len(bin.parts) == n && len(b.parts) == old(len(bin.parts)) - n && forall(k, 0, n, bin.parts[k] == old(bin.parts[k])) && forall(k, 0, old(len(bin.parts)) - n, b.parts[k] == old(bin.parts[n+k])) && bin.bytes + b.bytes == old(bin.bytes) && as(result, *Bin) == b
+//@   on return assert tail-size-is-sum: 1 <= n && n < old(len(bin.parts)) ==> b.bytes == nb && b.capacity == nb && i == old(len(bin.parts))
+//@   loop 0 invariant n <= i && i <= len(bin.parts)
+
+//@ func (*Bin).Remove
+//@   on return assert removes-that-part: index >= 0 ==> len(bin.parts) == old(len(bin.parts)) - 1 && old(bin.parts[index]) == as(binned, *part) && bin.bytes == old(bin.bytes) - (old(bin.parts[index].end) - old(bin.parts[index].beg))
+//@   on return assert absent-is-noop: index < 0 ==> len(bin.parts) == old(len(bin.parts)) && bin.bytes == old(bin.bytes)
